@@ -893,7 +893,7 @@ def _refresh_elementwise_output_shape(node: ir.Node, *, rewired: bool = False) -
     the new shape cannot be determined it is cleared rather than kept (an unknown
     annotation is true, a stale one is false).
     """
-    if (getattr(node, "domain", "") or "") != "":
+    if (getattr(node, "domain", "") or "") not in ("", "ai.onnx"):
         return
     outs = _node_outputs(node)
     if not outs:
@@ -1849,6 +1849,11 @@ def remove_redundant_transpose_pairs_ir(graph: ir.Graph) -> None:
                     ir.convenience.replace_all_uses_with(
                         t1_out, t1_in, replace_graph_outputs=True
                     )
+                    # The chain now computes in the source layout: its declared
+                    # shapes (transposed layout) are stale, like at the other
+                    # fold sites.
+                    for chain_node in allowed_nodes:
+                        _refresh_elementwise_output_shape(chain_node, rewired=True)
                     new_src = _node_output(last_allowed) or t1_in
                 else:
                     new_src = t1_in
